@@ -121,6 +121,18 @@ pub fn jobs(tier: Tier, seed: u64) -> Vec<Job> {
         let alpha = crate::checks::c09::c09_alphabet(&l).into_iter().filter(|t| t.0 != crate::checks::c09::RESERVED.as_bytes()).collect();
         out.push(Job { opts: l.to_opts(), alpha, len: tier.pick(3, 4), env: vec![] });
     }
+    // adjacent commands (chained, behind parent items, holding adjacent groups): their scope
+    // arithmetic sits right next to completion-only code
+    for (o, _) in crate::checks::c19::group_shapes(seed) {
+        let alpha = crate::checks::c19::group_alphabet(&o);
+        out.push(Job { opts: o, alpha, len: tier.pick(4, 5), env: vec![] });
+    }
+    for cmd_wrap in [crate::checks::c19::W::Bare, crate::checks::c19::W::Opt, crate::checks::c19::W::Many] {
+        for two_values in [false, true] {
+            let d = crate::checks::c19::NestDef { cmd_wrap, two_values, inner_switch: true, len: 0 };
+            out.push(Job { opts: crate::checks::c19::nest_opts(&d), alpha: crate::checks::c19::nest_alphabet(&d), len: tier.pick(4, 5), env: vec![] });
+        }
+    }
     // the same command name in two branches, same one-line help, different descriptions: the
     // help listing de-duplicates them (the command item carries docgen-only data)
     for (da, db) in [("Build it\n\nfirst variant", "Build it\n\nsecond variant"), ("Build it", "Build it"), ("Build it\n\nsame", "Build it\n\nsame")] {
